@@ -8,6 +8,8 @@ import (
 
 func TestReplay(t *testing.T) {
 	verif.ReplayMain(map[string]func(){
-		"HarnessBodySize": HarnessBodySize,
+		"HarnessBodySize":      HarnessBodySize,
+		"HarnessHostileClient": HarnessHostileClient,
+		"HarnessHostileServer": HarnessHostileServer,
 	})
 }
